@@ -153,7 +153,7 @@ Definition exp_ops_nilsOperator : list (string * string) :=
 Definition exp_pre_nilsOperator : list string := [].
 
 Definition exp_ops_arrayOperator : list (string * string) :=
-  [("+", "if reflect.TypeOf(l).Kind() != reflect.Slice { return nil, fmt.Errorf(""E"", op, l, r) }; elemType := reflect.TypeOf(l).Elem(); if elemType.Kind() != reflect.Interface { t := reflect.ValueOf(r).Type() if elemType != t { err = fmt.Errorf(""E"", r, t, elemType) } }; if err == nil { return reflect.Append(reflect.ValueOf(l), reflect.ValueOf(r)), nil }");
+  [("+", "if reflect.TypeOf(l).Kind() != reflect.Slice { return nil, fmt.Errorf(""E"", op, l, r) }; elemType := reflect.TypeOf(l).Elem(); if elemType.Kind() != reflect.Interface { t := reflect.ValueOf(r).Type() if elemType != t { err = fmt.Errorf(""E"", r, t, elemType) } } else if t := reflect.TypeOf(r); !t.AssignableTo(elemType) { err = fmt.Errorf(""E"", r, t, elemType) }; if err == nil { return reflect.Append(reflect.ValueOf(l), reflect.ValueOf(r)).Interface(), nil }");
    ("default", "err = fmt.Errorf(""E"", op, l, r)")].
 
 Definition exp_pre_arrayOperator : list string := ["var err error";
@@ -161,7 +161,7 @@ Definition exp_pre_arrayOperator : list string := ["var err error";
 
 Definition exp_sink_cases : list (string * string) :=
   [("time.Time", "if dtf, ok := c.ctx.Value(""TIME_FORMAT"").(string); ok { bb.Write(unsafeGetBytes(t.Format(dtf))) return }; bb.Write(unsafeGetBytes(t.Format(DefaultTimeFormat)))");
-   ("*time.Time", "c.write(bb, *t)");
+   ("*time.Time", "if t != nil { c.write(bb, *t) }");
    ("interfaceable", "c.write(bb, t.Interface())");
    ("string,ast.Printable,bool", "bb.Write(unsafeGetBytes(template.HTMLEscaper(t)))");
    ("template.HTML", "bb.Write(unsafeGetBytes(string(t)))");
